@@ -114,16 +114,23 @@ func (x *Exec) refFact(st *State, r string) string {
 	return and("(>= "+r+" 0)", "(<= (birth "+r+") "+st.now+")")
 }
 
-// subAddrFn: injective address of an embedded (by-value) struct/array/scalar field.
+// subAddr: address of an embedded (by-value) field of an object. All such addresses are
+// built from one injective pairing function, so that addresses of different fields (of the
+// same or of different types) never alias, and an embedded address determines its owner.
 func (x *Exec) subAddr(owner types.Type, field int, ref string) string {
 	su := owner.Underlying().(*types.Struct)
-	fn := fmt.Sprintf("addr$%s$%s", typeKey(owner), su.Field(field).Name())
-	x.vc.DeclareRaw(fn, "(declare-fun "+fn+" (Int) Int)")
-	inv := fn + ".inv"
-	x.vc.DeclareRaw(inv, "(declare-fun "+inv+" (Int) Int)")
+	key := fmt.Sprintf("%s.%s", typeKey(owner), su.Field(field).Name())
+	id, ok := x.subAddrIDs[key]
+	if !ok {
+		id = len(x.subAddrIDs) + 1
+		x.subAddrIDs[key] = id
+	}
+	x.vc.DeclareRaw("subaddr", "(declare-fun subaddr (Int Int) Int)")
+	x.vc.DeclareRaw("subaddr.fld", "(declare-fun subaddr.fld (Int) Int)")
+	x.vc.DeclareRaw("subaddr.own", "(declare-fun subaddr.own (Int) Int)")
 	x.birth()
-	x.vc.AddAxiom(fn+".inj", "(assert (forall ((r Int)) (! (and (= ("+inv+" ("+fn+" r)) r) (=> (> r 0) (> ("+fn+" r) 0)) (= (birth ("+fn+" r)) (birth r))) :pattern (("+fn+" r)))))", fn)
-	return "(" + fn + " " + ref + ")"
+	x.vc.AddAxiom("subaddr.inj", "(assert (forall ((k Int) (r Int)) (! (and (= (subaddr.fld (subaddr k r)) k) (= (subaddr.own (subaddr k r)) r) (=> (> r 0) (> (subaddr k r) 0)) (= (birth (subaddr k r)) (birth r))) :pattern ((subaddr k r)))))", "subaddr")
+	return fmt.Sprintf("(subaddr %d %s)", id, ref)
 }
 
 // initObject zero-initialises a fresh struct object.
